@@ -4,6 +4,8 @@ import (
 	"bytes"
 	"fmt"
 	"io"
+	"os"
+	"path/filepath"
 	"testing"
 
 	"filippo.io/age"
@@ -384,6 +386,46 @@ func boolInt(b bool) int {
 	return 0
 }
 
+// the same through the age command: a tampered payload gives a non-zero exit
+// status and only a prefix of the plaintext at the output
+func c02CheckCLI(c c02Case, st *stats.Run) error {
+	bin := os.Getenv("VERIF_BIN")
+	if bin == "" {
+		return nil
+	}
+	p := hx.ThePool()
+	f, plain := c02Base(c.PlainLen, c.PlainSeed)
+	region, wantPlain, accept := c02Apply(f, plain, c.Edit, c.PlainSeed)
+	file := append(f.Header.Marshal(), region...)
+	dir, err := os.MkdirTemp(".", "c02cli-")
+	if err != nil {
+		return pbt.Failf("C02/harness", "%v", err)
+	}
+	dir, _ = filepath.Abs(dir)
+	defer os.RemoveAll(dir)
+	os.WriteFile(filepath.Join(dir, "in.age"), file, 0o644)
+	os.WriteFile(filepath.Join(dir, "key.txt"), []byte(refage.Bech32Encode("AGE-SECRET-KEY-", p.X25519[0])+"\n"), 0o600)
+	st.Case(!accept, stats.HashJSON(c), "cli", "cli:edit="+c.Edit.Kind, chunkLabel(c.PlainLen))
+	st.Sample("cli/"+c.Edit.Kind, c)
+	code, stdout, stderr := runCLI(dir, []string{"PATH=/nonexistent", "HOME=" + dir}, nil, filepath.Join(bin, "age"), "-d", "-i", "key.txt", "in.age")
+	if code == -2 {
+		return nil
+	}
+	if accept {
+		if code != 0 || stdout != string(wantPlain) {
+			return pbt.Failf("C02/valid-rejected", "age -d on a valid file: exit %d (%s)", code, trunc([]byte(stderr)))
+		}
+		return nil
+	}
+	if code == 0 {
+		return pbt.Failf("C02/tampered-accepted", "age -d exits 0 on a file whose payload was edited (%s %+v); %d bytes on stdout", c.Edit.Kind, c.Edit, len(stdout))
+	}
+	if len(stdout) > len(plain) || stdout != string(plain[:len(stdout)]) {
+		return pbt.Failf("C02/released-not-prefix", "age -d wrote %d bytes that are not a prefix of the plaintext before failing", len(stdout))
+	}
+	return nil
+}
+
 func TestC02(t *testing.T) {
 	s := pbt.Start(t, "C02")
 	defer s.Finish()
@@ -501,5 +543,22 @@ func TestC02(t *testing.T) {
 		}
 		s.St.Exhaust("258-chunk files (16 MiB): unedited, first 256 chunks dropped, a 256-chunk run duplicated, chunks i and i+256 swapped, 257 full chunks + empty final chunk, canonical 257-chunk chunking, 256 chunks + one trailing byte", int64(len(cases)))
 	}, check)
+	pbt.Each(s, "edits-cli", func(yield func(c02Case)) {
+		n := 0
+		for _, l := range []int{0, 100, chunk, chunk + 1} {
+			total := 16 + l + 16*chunksOf(l)
+			edits := []c02Edit{{Kind: "none"}, {Kind: "flip", Off: 3, Bit: 1}, {Kind: "flip", Off: 16, Bit: 0}, {Kind: "flip", Off: total - 1, Bit: 7}, {Kind: "trunc", Len: total - 1}, {Kind: "trunc", Len: 16}, {Kind: "trunc", Len: 10}, {Kind: "extend", Len: 1}, {Kind: "extend", Len: 20}}
+			if l > chunk {
+				edits = append(edits, c02Edit{Kind: "flip", Off: 16 + refage.EncChunkSize + 5, Bit: 2}, c02Edit{Kind: "prog", Prog: []progStep{{Src: "own", Idx: 1}, {Src: "own", Idx: 0}}})
+			}
+			for _, e := range edits {
+				if s.Mine(n) {
+					yield(c02Case{PlainLen: l, PlainSeed: 8, Edit: e})
+				}
+				n++
+			}
+		}
+		s.St.Exhaust("through the age command: 4 plaintext lengths x nonce / first byte / last tag flips, truncations, extensions, chunk swap", int64(n))
+	}, func(c c02Case) error { return c02CheckCLI(c, s.St) })
 	pbt.Rapid(s, "edits", s.N(4000, 25000), c02Gen, check)
 }
